@@ -958,7 +958,7 @@ def check_C17(ctx):
     for (t_, o_, fam_, *_m) in scale.long_fail_chains(ctx):
         cs.eval(t_, o_, fam_)
     # the laws with LONG operands: chains of 33 / 66 / 100 comparisons, a failing or undecided one far inside, deep negations
-    for n in ([33, 66] if ctx.quick else [33, 66, 100, 257]):
+    for n in ([33, 63, 64, 65, 66] if ctx.quick else [31, 32, 33, 63, 64, 65, 66, 100, 127, 128, 129, 257]):
         for far in ('k%d eq %d' % (n - 2, n - 2), 'k gt null', 'zz eq 99999999999999999999', 'p eq "a"'):
             parts = ['k%d eq %d' % (i, i) for i in range(n)]
             parts[n - 2] = far
